@@ -3,6 +3,7 @@ from __future__ import annotations
 
 import random
 
+from vk import core
 from vk.oracles import gf2
 from vk.workloads import catalogue as cat
 
@@ -145,7 +146,13 @@ def run_unit(ctx, u):
     words = [w for w in dict.fromkeys(words) if not gf2.in_span(cb, cp, w)]
     if words:
         wt = torch.tensor([gf2.bits_from_vec(w, n) for w in words], dtype=torch.float32)
-        oks, syn2 = ctx.call(nm, "syndrome(non-codeword)!=0", enc.calculate_syndrome, wt)
+        # Reed-Muller syndromes are a nearest-codeword search over all 2^k messages: above k = 20 it is run
+        # under a tight address-space cap so that it fails fast (MemoryError) instead of eating the machine
+        big_rm = spec["family"] == "rm" and k > 20
+        with core.mem_cap(3 if big_rm else None):
+            oks, syn2 = ctx.call(nm, "syndrome(non-codeword)!=0", enc.calculate_syndrome, wt[:4] if big_rm else wt)
+        if big_rm and oks:
+            wt, words = wt[:4], words[:4]
         if oks:
             nz = (syn2 != 0).any(dim=-1)
             for w in words[:32]:
